@@ -69,7 +69,7 @@ impl World {
     pub fn read_dir(&mut self, fs: &Arc<VFS>, path: &str) -> (r: VfsResult<std::vec::IntoIter<String>>)
         requires canonical(path@)
         ensures world_same(*old(self), *final(self)),
-                r is Ok ==> tc_read_dir_ok(old(self).tree(*fs), path@, string_views(r->Ok_0.remaining()), final(self).tree(*fs)),
+                r is Ok ==> tc_read_dir_ok(old(self).tree(*fs), path@, string_views(r->Ok_0.remaining()), final(self).tree(*fs)) && r->Ok_0.decrease() is Some,
                 r is Err ==> tc_read_dir_err(old(self).tree(*fs), path@, r->Err_0, final(self).tree(*fs)),
                 World::reliable(*fs) && is_dir_at(old(self).tree(*fs), path@) ==> r is Ok,
     { unimplemented!() }
@@ -135,7 +135,7 @@ impl World {
 #[verifier::external_body]
 fn verif_iter_map<T, U, F: FnMut(T) -> U>(it: std::vec::IntoIter<T>, f: F) -> (r: std::vec::IntoIter<U>)
     requires forall|i: int| 0 <= i < it.remaining().len() ==> f.requires((#[trigger] it.remaining()[i],))
-    ensures r.remaining().len() == it.remaining().len(),
+    ensures r.remaining().len() == it.remaining().len(), r.decrease() is Some,
             forall|i: int| 0 <= i < it.remaining().len() ==> f.ensures((it.remaining()[i],), #[trigger] r.remaining()[i]),
 { it.map(f).collect::<Vec<_>>().into_iter() }
 // ---- reading / copying through handles (assumed std behaviour; write-through model, see DESIGN section 4.3)
@@ -186,3 +186,10 @@ impl World {
                 tc_move_file(old(self).tree(*fs), src@, dest@, r, final(self).tree(*fs)),
     { unimplemented!() }
 }
+// ---- HashSet<String> listing support (OverlayFS::read_dir)
+use std::collections::HashSet;
+/// rule R8 (HashSet variant): `Box::new(S.into_iter())` for a HashSet S -> eager vector iterator with the same elements, each once
+#[verifier::external_body]
+fn verif_set_into_vec_iter(s: HashSet<String>) -> (r: std::vec::IntoIter<String>)
+    ensures r.remaining().no_duplicates(), r.remaining().to_set() =~= s@, r.decrease() is Some
+{ s.into_iter().collect::<Vec<_>>().into_iter() }
